@@ -101,6 +101,8 @@ struct websocket {
 	enum websocket_callback_return (*pong_received)(struct websocket *s, uint8_t *msg, size_t length);
 	enum websocket_callback_return (*close_received)(struct websocket *s, enum ws_status_code status_code);
 	bool protocol_requested;
+	bool key_received;
+	bool version_received;
 	struct {
 		const char *name;
 		bool found;
